@@ -625,6 +625,7 @@ static DSVAR work_queue_t wq;
 static DSVAR uint64_t sess_start[MAX_SESS], sess_end[MAX_SESS];
 static DSVAR int n_sess;
 static DSVAR long wq_queued, wq_started;
+static DSVAR uint8_t wq_was_queued[MAXV];
 
 GHOST static int gwq_session_begin(void) {
   vs_rt_enter();
@@ -635,7 +636,18 @@ GHOST static int gwq_session_begin(void) {
   return n_sess++;
 }
 GHOST static uint64_t gwq_tick(void) { return ++gclock; }
-GHOST static void gwq_session_end(int s, uint64_t at) { sess_end[s] = at; }
+GHOST static void gwq_session_end(int s, uint64_t at) {
+  vs_rt_enter();
+  sess_end[s] = at;
+  // the worker was told EMPTY by a call invoked at 'at': every item whose push had already returned QUEUED by then must
+  // have been handed out - otherwise it sits in the queue with nobody working
+  for (long v = 1; v < next_val; v++)
+    if (v_pushed[v] && wq_was_queued[v] && v_push_resp[v] < at && !v_taken[v])
+      vs_violation("item_stranded", "work queue: the active worker was told EMPTY while item %ld (its push by thread %d had returned QUEUED before that call) is still queued",
+                   v, v_pusher[v]);
+  vs_rt_exit();
+}
+GHOST static void gwq_note_queued(long v) { wq_was_queued[v] = 1; }
 static void wq_setup(void) {
   work_queue_init(&wq);
   vs_watch(&wq, sizeof wq);
@@ -647,6 +659,7 @@ static int wq_do_op(int t, op_t* op) {
     work_queue_item_t* it = malloc(sizeof *it);
     it->data = (void*)v;
     int r = work_queue_push(&wq, it);
+    if (r != WORK_QUEUE_START_WORKING) gwq_note_queued(v);
     gv_pushed(v);
     if (r == WORK_QUEUE_START_WORKING) {
       int s = gwq_session_begin();
